@@ -10,7 +10,9 @@ Local Open Scope Z_scope.
 Inductive xevent :=
 | XWrite (r : record) (now : name)
 | XDelete (b0 b1 : name) (before : list name) (outs : fsys) (after : list name)
-| XRestart (rot0 now0 : name).
+| XRestart (rot0 now0 : name)
+| XWriteHold (r : record) (now : name)   (* held-compress stream: the compress phase waits for XGzip *)
+| XGzip.                                 (* the oldest held compress phase runs *)
 
 Record case := mkcase {
   k_cfg : config;
@@ -60,6 +62,24 @@ Fixpoint first_phase1 (l : list (name * nat)) (i : nat) : option nat :=
   | _ :: r => first_phase1 r (S i)
   end.
 
+Fixpoint first_phase0 (l : list (name * nat)) (i : nat) : option nat :=
+  match l with
+  | [] => None
+  | (_, O) :: _ => Some i
+  | _ :: r => first_phase0 r (S i)
+  end.
+
+Definition gzip_oldest (c : config) (s : state) : option state :=
+  match first_phase0 (s_posts s) 0 with
+  | None => None
+  | Some k =>
+      match nth_error (s_posts s) k with
+      | Some (f, _) =>
+          Some (if obstacle (f ++ gzip_ext) (s_fs s) then step c s (EGzipFail k None) else step c s (EGzip k))
+      | None => None
+      end
+  end.
+
 Definition delete_ok (c : config) (s : state) (k : nat) (b : name) (before : list name) (outs : fsys) (after : list name) : option state :=
   let s' := step c s (EDelete k b) in
   let mouts := outdated_files c (s_fs s) b in
@@ -73,6 +93,8 @@ Fixpoint model_run (c : config) (s : state) (evs : list xevent) : option state :
   | [] => Some s
   | XWrite r now :: rest => model_run c (write_and_compress c s r now) rest
   | XRestart rot0 now0 :: rest => model_run c (step c s (ERestart rot0 now0)) rest
+  | XWriteHold r now :: rest => model_run c (step c s (EWrite r now)) rest
+  | XGzip :: rest => match gzip_oldest c s with Some s' => model_run c s' rest | None => None end
   | XDelete b0 b1 before outs after :: rest =>
       match first_phase1 (s_posts s) 0 with
       | None => None
@@ -97,11 +119,11 @@ Definition model_ok (k : case) : bool :=
 
 (* ---- the property on the observations alone *)
 Definition wrecs (evs : list xevent) : content :=
-  visible (flat_map (fun e => match e with XWrite r _ => [r] | _ => [] end) evs).
+  visible (flat_map (fun e => match e with XWrite r _ | XWriteHold r _ => [r] | _ => [] end) evs).
 Definition graveyard (evs : list xevent) : fsys :=
   flat_map (fun e => match e with XDelete _ _ _ outs _ => outs | _ => [] end) evs.
 Definition stamps (k : case) : list name :=
-  k_now0 k :: flat_map (fun e => match e with XWrite _ now => [now] | XRestart _ now0 => [now0] | _ => [] end) (k_events k).
+  k_now0 k :: flat_map (fun e => match e with XWrite _ now | XWriteHold _ now => [now] | XRestart _ now0 => [now0] | _ => [] end) (k_events k).
 
 (* the configuration the property speaks of: the configured one when the case went through logx.Config *)
 Definition spec_cfg (k : case) : config :=
@@ -158,6 +180,19 @@ Definition overshoot_ok (k : case) (w : content) (all : fsys) : bool :=
       else true
   end.
 
+(* (2b) compression on: once every post-rotation task has run, every backup holding accepted records is
+   gzip-compressed -- unless something that is no regular file sits, or sat at start-up, at its .gz path
+   (compression failed) *)
+Definition all_compressed (k : case) (w : content) : bool :=
+  let c := spec_cfg k in
+  if c_compress c then
+    forallb (fun f => match w_part w f with
+                      | [] => true
+                      | _ => name_eqb (fst f) (c_file c) || (1 <=? snd (snd f))%nat ||
+                             obstacle (fst f ++ gzip_ext) (k_final k) || obstacle (fst f ++ gzip_ext) (k_seeds k)
+                      end) (k_final k)
+  else true.
+
 (* (3) clean-up *)
 Definition is_matched (c : config) (n : name) : bool := glob_match (bpre c) (bsuf c ++ gz_opt c) n.
 Definition newer_count (c : config) (before : list name) (n : name) : Z :=
@@ -194,6 +229,7 @@ Definition spec_ok (k : case) : bool :=
   once_complete w all &&
   (if nondecreasing (stamps k) then in_order k w all else true) &&
   overshoot_ok k w all &&
+  all_compressed k w &&
   forallb (fun e => match e with
                     | XDelete b0 b1 before outs after => delete_spec c b0 b1 before outs after
                     | _ => true
